@@ -19,7 +19,7 @@ ORACLES = {
 JUNCTIONS = ["0", "1", "255", "256", "65535", "65536", "4294967295", "4294967296", str(2**64 - 1), str(2**64), str(2**128 - 1), str(2**128),
              str(2**256 - 1), str(2**256), str(2**300), "007", "00000000000000000000000000000000000001", "١٢٣", "²", "½", "一", "Alice", "alice", "a" * 30,
              "a" * 31, "a" * 32, "b" * 33, "é" * 15, "é" * 16, "😀" * 8, "stash", "polkadot", " ", "a b", "0x10", "-1", "1e3", "x" * 64, "\n", "1\n",
-             "9" * 4301, "0" * 4400 + "7", "1" * 78, "9" * 77, "a ", " a", "7 ", " 7", "a\t", "a\u3000", "\u00a0b", "a" * 31 + " ", " " + "a" * 31, "12\u2003"]
+             "x" * 62, "x" * 63, "x" * 64, "é" * 31 + "a", "y" * 16383, "y" * 16384, "z" * 16382, "9" * 4301, "0" * 4400 + "7", "1" * 78, "9" * 77, "a ", " a", "7 ", " 7", "a\t", "a\u3000", "\u00a0b", "a" * 31 + " ", " " + "a" * 31, "12\u2003"]
 
 
 def rand_path(rng):
